@@ -39,8 +39,9 @@ def _work(args):
         over = symdag.Dag(date, targets=[t for t in DEFAULT_TARGETS if t != n], data_cols=list(TYPES_INPUT_VARIABLES) + [n])
         if n in over.funcs:
             out["diffs"].append(f"{n}: supplied as data but still computed (the column would be ignored)")
-        if n not in over.overridden:
-            out["diffs"].append(f"{n}: not registered as overriding column")
+        if n not in over.overridden and base.kind(n) != "timeconv":
+            # (derived time-unit siblings are simply not created for names present in the data)
+            out["diffs"].append(f"{n}: overrides a rule but is not registered as overriding column (no warning)")
         if n not in over.graph.nodes and n not in DEFAULT_TARGETS:
             out["diffs"].append(f"{n}: supplied column is not used by the graph although the computed graph uses the node")
         for k in sorted(set(over.graph.nodes)):
